@@ -102,7 +102,9 @@ Definition tophash (hash : N) : N :=
 (* maptype flags that matter *)
 (* memclr    : the memclr functions really clear (false = the empty stubs of the original tree)
    ptrbucket : t.Bucket.PtrBytes != 0 (evacuate then wipes an old bucket nobody iterates) *)
-Record mtype := mkT { reflexive : bool; needkeyupdate : bool; memclr : bool; ptrbucket : bool }.
+(* clearfresh: mapclear gives the map a fresh bucket array while a range loop may be running
+   (iterator flags set) instead of wiping and reusing the array; false = always reuse *)
+Record mtype := mkT { reflexive : bool; needkeyupdate : bool; memclr : bool; ptrbucket : bool; clearfresh : bool }.
 
 Record hmap := mkH {
   count : N; flags : N; hB : N; noverflow : N; hash0 : N;
@@ -423,8 +425,10 @@ Definition mapclear (fuel : nat) (h : hmap) (m : mem) : res (hmap * mem) :=
   bind (mark_buckets (N.to_nat (bshift (hB h))) fuel m (buckets h) 0) (fun m1 =>
   bind (if growing h then mark_buckets (N.to_nat (noldbuckets h)) fuel m1 (oldbuckets h) 0 else Ok m1) (fun m2 =>
   let (h0, m3) := fastrand m2 in
-  let '(_, nx, m4) := makeBucketArray (memclr T) m3 (hB h) (buckets h) in
-  Ok (mkH 0 (N.land (flags h) (N.lxor 255 fSameSizeGrow)) (hB h) 0 h0 (buckets h) 0 0 nx, m4))).
+  (* the array is wiped and reused unless a range loop may still be walking it *)
+  let dirty := if clearfresh T && (has (flags h) fIterator || has (flags h) fOldIterator) then 0 else buckets h in
+  let '(arr, nx, m4) := makeBucketArray (memclr T) m3 (hB h) dirty in
+  Ok (mkH 0 (N.land (flags h) (N.lxor 255 fSameSizeGrow)) (hB h) 0 h0 arr 0 0 nx, m4))).
 
 (* ---------- iterators ---------- *)
 Record hiter := mkI {
@@ -624,7 +628,7 @@ Fixpoint run_ops (T : mtype) (fuel : nat) (w : world) (ops : list op) : list (li
 
 (* configuration of one history *)
 Record config := mkC { c_nil : bool; c_hint : N; c_refl : bool; c_upd : bool; c_seed : N;
-                       c_memclr : bool; c_ptr : bool }.
+                       c_memclr : bool; c_ptr : bool; c_fresh : bool }.
 
 Definition init_world (c : config) : world :=
   let m0 := mkM (PositiveMap.empty bucket) 2 (c_seed c) false in
@@ -633,7 +637,7 @@ Definition init_world (c : config) : world :=
 
 Definition run_history (x : config * list op) : list (list N) :=
   let fuel := N.to_nat 65536 in
-  run_ops (mkT (c_refl (fst x)) (c_upd (fst x)) (c_memclr (fst x)) (c_ptr (fst x))) fuel (init_world (fst x)) (snd x).
+  run_ops (mkT (c_refl (fst x)) (c_upd (fst x)) (c_memclr (fst x)) (c_ptr (fst x)) (c_fresh (fst x))) fuel (init_world (fst x)) (snd x).
 
 Definition trace_eqb : list (list N) -> list (list N) -> bool := list_eqb (list_eqb N.eqb).
 
